@@ -50,4 +50,5 @@ theorem Flds.valid : (fs : Flds) → fs.OK → ∀ f ∈ fs.encs, Valid f.2
     · exact Flds.valid fs h.2 e he
 end
 
+
 end SpecVerif.Writer
